@@ -7,22 +7,24 @@ from specs.retry import *
 
 # fields no handler of broker traffic may touch: reassembly buffer and its ghost log, the object graph skeleton,
 # and the configuration
-KEEP = ['_buffer', 'g_dispatched', 'IDLE', 'CONNECTING', 'CONNECTED', 'protocol', 'factory', 'addr', 'transport',
+KEEP0 = ['_buffer', 'g_dispatched', 'IDLE', 'CONNECTING', 'CONNECTED', 'protocol', 'factory', 'addr', 'transport',
         '_pingReq', 'queuePublishTx', 'windowPublish', 'windowPubRelease', 'windowPubRx', 'windowSubscribe',
         'windowUnsubscribe', '_window', '_initialT', '_bandwith', '_factor', '_version', '_cleanStart',
         'onPublish', 'onDisconnection', 'onMqttConnectionMade']
+KEEP = KEEP0 + ['g_firing']
 
 
 # what releasing held-back publishes never touches in addition: Deferred outcomes, existing timers, request fields
-KEEP_REFILL = KEEP + ['d_fired', 'd_ok', 'd_val', 'd_owner', 'deferred', 'msgId', 'retries', 'qos', 'topic', 'retain',
-                      'payload', 't_status', 't_fn', 't_arg', 't_owner', 't_delay', 'q_pos', 'initial', 'factor',
-                      'bandwith', 'maxDelay']
+KEEP_REFILL0 = KEEP0 + ['d_fired', 'd_ok', 'd_val', 'd_owner', 'deferred', 'msgId', 'qos', 'topic', 'retain',
+                        'payload', 't_status', 't_fn', 't_arg', 't_owner', 't_delay', 'q_pos', 'initial', 'factor',
+                        'bandwith', 'maxDelay']
+KEEP_REFILL = KEEP_REFILL0 + ['g_firing', 'retries']
 
 
 @spec
 def live(self: Ref['mqtt.client.pubsubs.MQTTProtocol']) -> bool:
     """the invariant of an established connection"""
-    return inv(self) and alarms_set(self) and is_list_bytes(self.transport.tr_out)
+    return inv(self) and alarms_set(self) and is_list_bytes(self.transport.tr_out) and is_none(self.g_firing)
 
 
 # ---------------------------------------------------------------- SUBACK
